@@ -6,6 +6,7 @@ import (
 	"flag"
 	"fmt"
 	"os"
+	"os/exec"
 	"path/filepath"
 	"sort"
 	"strconv"
@@ -27,6 +28,18 @@ type Groups struct {
 
 type knownFinding struct {
 	Prop, Obligation, Text string
+	Replay, Pkg, Test      string
+}
+
+// replayFinding runs the finding's demonstration against the real code (go test -overlay).
+// Returns true if the defect still reproduces.
+func replayFinding(kf *knownFinding) (bool, string) {
+	if kf.Replay == "" {
+		return true, "(no replay registered)"
+	}
+	cmd := exec.Command(filepath.Join(verifDir, "tools", "replay_finding.sh"), filepath.Join(verifDir, kf.Replay), kf.Pkg, kf.Test)
+	out, err := cmd.CombinedOutput()
+	return err == nil, string(out)
 }
 
 func readKnownFindings(path string) []knownFinding {
@@ -47,10 +60,16 @@ func readKnownFindings(path string) []knownFinding {
 				kf.Prop = strings.TrimPrefix(f, "property=")
 			} else if strings.HasPrefix(f, "obligation=") {
 				kf.Obligation = strings.TrimPrefix(f, "obligation=")
+			} else if strings.HasPrefix(f, "replay=") {
+				kf.Replay = strings.TrimPrefix(f, "replay=")
+			} else if strings.HasPrefix(f, "pkg=") {
+				kf.Pkg = strings.TrimPrefix(f, "pkg=")
+			} else if strings.HasPrefix(f, "test=") {
+				kf.Test = strings.TrimPrefix(f, "test=")
 			}
 		}
-		if i := strings.Index(rest, "obligation="+kf.Obligation); i >= 0 {
-			kf.Text = strings.TrimSpace(rest[i+len("obligation="+kf.Obligation):])
+		if i := strings.Index(rest, " -- "); i >= 0 {
+			kf.Text = strings.TrimSpace(rest[i+4:])
 		}
 		if kf.Prop != "" && kf.Obligation != "" {
 			out = append(out, kf)
@@ -155,7 +174,10 @@ func cmdCheck(args []string) int {
 			}
 			if kf := isKnown(o.Name); kf != nil {
 				if o.Status != "proved" {
-					knownHit = append(knownHit, fmt.Sprintf("KNOWN-FINDING: property=%s %s %s", *prop, o.Name, kf.Text))
+					if ok, out := replayFinding(kf); !ok {
+						engineErrs = append(engineErrs, fmt.Sprintf("stale known finding: %s no longer reproduces on the real code (%s): %s", o.Name, kf.Replay, truncate(out, 300)))
+					}
+					knownHit = append(knownHit, fmt.Sprintf("KNOWN-FINDING: property=%s %s %s (replayed on the real code: %s)", *prop, o.Name, kf.Text, kf.Replay))
 				} else {
 					engineErrs = append(engineErrs, fmt.Sprintf("stale known finding: %s is listed in known_findings.txt but now proves", o.Name))
 				}
